@@ -13,6 +13,7 @@ mod snapshot;
 mod vtxrec;
 mod audio;
 mod ay;
+mod determ;
 
 fn main() {
     let mut it = std::env::args().skip(1);
@@ -50,6 +51,7 @@ fn main() {
         "vtx" => vtxrec::run(&args),
         "audio" => audio::run(&args),
         "ay" => ay::run(&args),
+        "determ" => determ::run(&args),
         "portsdbg" => ports::debug(),
         _ => {
             eprintln!("unknown sub-command {cmd:?}");
